@@ -646,6 +646,178 @@ def run_aln_hist_case(case, out=None):
 
 
 # --------------------------------------------------------------------------
+# features ADDED on views (Sequence.add_feature / Alignment.add_feature(seqid=...)), and degap()
+# --------------------------------------------------------------------------
+def gen_added_case(rng):
+    n = rng.choice([10, 12, 16, 20])
+    text = "".join(rng.choice("ACGT") for _ in range(n))
+    ops = []
+    if rng.random() < 0.8:
+        a = rng.randint(0, n // 2)
+        ops.append(["s", a, rng.randint(a + 4, n)])
+    for _ in range(rng.randint(0, 2)):
+        ops.append(["rc"] if rng.random() < 0.5 else ["s", rng.choice([0, 1]), rng.choice([None, -1])])
+    return dict(kind=rng.choice(["old", "new"]), text=text, offset=rng.choice([0, 0, 3, 7]), ops=ops,
+                strand=rng.choice(["+", "-"]), k=rng.choice([1, 1, 2]), seed=rng.randint(0, 10**6))
+
+
+def run_added_case(case, out=None):
+    import random
+
+    fails = []
+    inp = dict(added_case=case)
+    root = mk_seq(case["kind"], case["text"], case["offset"])
+    v = root
+    state = (case["offset"], case["offset"] + len(case["text"]), False)
+    try:
+        for op in case["ops"]:
+            v = apply_op(v, op)
+            state = apply_op_spec(state, op)
+    except Exception as e:  # noqa: BLE001
+        return [("building the view raised", inp, "view", repr(e), f"added:build:{type(e).__name__}")]
+    L = len(v)
+    if L < 3:
+        return []
+    r = random.Random(case["seed"])
+    pts = sorted(r.sample(range(0, L + 1), 2 * case["k"]))
+    spans = [(pts[2 * j], pts[2 * j + 1]) for j in range(case["k"])]
+    rev = state[2]
+    flav = f"{case['kind']}:{'rev' if rev else 'fwd'}:{'offset' if v.annotation_offset else 'origin'}"
+    try:
+        f = v.add_feature(biotype="gene", name="added", spans=spans, strand=case["strand"])
+        ref = str(f.get_slice())
+    except ValueError as e:
+        if "cannot set offset" in str(e) and case["kind"] == "new":
+            return []  # open finding C04-new-sequence-feature-slice-offset-guard: no reference residues available
+        return [("add_feature on a view raised", dict(inp, spans=spans), "a feature", f"ValueError: {e}", f"added:{flav}:raises:ValueError")]
+    except Exception as e:  # noqa: BLE001
+        return [("add_feature on a view raised", dict(inp, spans=spans), "a feature", f"{type(e).__name__}: {e}", f"added:{flav}:raises:{type(e).__name__}")]
+    if out is not None:
+        out["evaluations"] += 1
+        bump(out, "added_on", flav)
+        out["nontrivial"].add(("added", case["text"], json.dumps(case["ops"]), str(spans)))
+    if not rev:
+        want = "".join(str(v)[a:b] for a, b in spans)
+        want = rc(want) if case["strand"] == "-" else want
+        if ref != want:
+            fails.append(("the feature returned by add_feature does not denote view[spans]", dict(inp, spans=spans), want, ref, f"added:{flav}:returned"))
+            return fails
+    lo, hi = spans[0][0], spans[-1][1]
+    probes = [("same-view", v), ("root", root), ("after-rc", v.rc())]
+    if hi - lo < L:
+        # a further slice that still contains the whole feature (view coordinates; on an rc'd view the spans are
+        # plus-oriented, so mirror them)
+        a, b = (L - hi, L - lo) if rev else (lo, hi)
+        probes.append(("further-slice", v[a:b]))
+    for which, obj in probes:
+        try:
+            got = [str(x.get_slice()) for x in obj.get_features(name="added", allow_partial=True)]
+        except Exception as e:  # noqa: BLE001
+            if "cannot set offset" in str(e) and case["kind"] == "new":
+                continue
+            got = f"raised {type(e).__name__}: {e}"
+        if out is not None:
+            out["evaluations"] += 1
+        if got != [ref]:
+            fails.append((f"a feature added on a view does not denote the same residues when asked for again ({which})",
+                          dict(inp, spans=spans, which=which), [ref], got, f"added:{flav}:{which}"))
+    return fails
+
+
+def run_aln_added_case(case, out=None):
+    """case = an aln_hist_case; a feature is added on one row of the final alignment"""
+    import random
+
+    fails = []
+    inp = dict(aln_added_case=case)
+    try:
+        aln, (A, B, rev) = build_aln_hist(dict(case, feats=[], aln_feats=[]))
+    except Exception as e:  # noqa: BLE001
+        return [("building / slicing the alignment raised", inp, "alignment", f"{type(e).__name__}: {e}", f"added-aln:build:{type(e).__name__}")]
+    r = random.Random(case.get("seed", 1))
+    sid = r.choice(list(case["rows"]))
+    seq = aln.get_seq(sid)
+    L = len(seq)
+    if L < 2:
+        return []
+    a = r.randint(0, L - 1)
+    b = r.randint(a + 1, L)
+    strand = r.choice(["+", "-"])
+    flav = f"{'first-row' if sid == list(case['rows'])[0] else 'other-row'}:{'rev' if rev else 'fwd'}:{'offset' if seq.annotation_offset else 'origin'}"
+    try:
+        f = aln.add_feature(seqid=sid, biotype="gene", name="added", spans=[(a, b)], strand=strand)
+        ref = _row_str(f.get_slice(), sid)
+    except Exception as e:  # noqa: BLE001
+        return [("Alignment.add_feature(seqid=...) raised", dict(inp, seqid=sid, spans=[a, b]), "a feature", f"{type(e).__name__}: {e}", f"added-aln:{flav}:raises:{type(e).__name__}")]
+    if out is not None:
+        out["evaluations"] += 1
+        bump(out, "added_on_alignment_row", flav)
+    for which, call in (("alignment", lambda: [_row_str(x.get_slice(), sid) for x in aln.get_features(seqid=sid, name="added", on_alignment=False, allow_partial=True)]),
+                        ("get_seq", lambda: [str(x.get_slice()) for x in aln.get_seq(sid).get_features(name="added", allow_partial=True)])):
+        try:
+            got = call()
+        except Exception as e:  # noqa: BLE001
+            got = f"raised {type(e).__name__}: {e}"
+        if got != [ref]:
+            fails.append((f"a feature added on an alignment row does not denote the same residues when asked for again ({which})",
+                          dict(inp, seqid=sid, spans=[a, b], strand=strand, which=which), [ref], got, f"added-aln:{flav}:{which}"))
+    return fails
+
+
+def gen_degap_case(rng):
+    case = gen_case(rng)
+    case["ops"] = [op for op in case["ops"] if op[0] in ("s", "rc")]
+    case["gapped"] = rng.random() < 0.3
+    if case["gapped"]:
+        # a gapped Sequence whose features are given in ITS coordinates; no history
+        t = list(case["text"])
+        for _ in range(rng.randint(1, 3)):
+            t.insert(rng.randint(0, len(t)), "-")
+        case["text"], case["ops"], case["offset"] = "".join(t), [], 0
+        n = len(case["text"])
+        for f in case["feats"]:
+            pts = sorted(rng.sample(range(0, n + 1), 2))
+            f["spans"] = [[pts[0], pts[1]]]
+    return case
+
+
+def run_degap_case(case, out=None):
+    fails = []
+    inp = dict(degap_case=case)
+    try:
+        seq, state = build(case)
+    except Exception as e:  # noqa: BLE001
+        return [("building the view raised", inp, "view", repr(e), f"degap:build:{type(e).__name__}")]
+    if len(seq) == 0:
+        return []
+    flav = f"{case['kind']}:{'rev' if state[2] else 'fwd'}:{'offset' if seq.annotation_offset else 'origin'}:{'gapped' if case['gapped'] else 'ungapped'}"
+    # what the features denote on the view, from the oracle (not through get_slice, which has an open finding
+    # on new-style views that carry an offset)
+    before = {}
+    p0, p1, _ = state
+    for f in case["feats"]:
+        lo, hi = min(a for a, _ in f["spans"]), max(b for _, b in f["spans"])
+        if lo < p1 and p0 < hi:
+            before[f["name"]] = oracle_slice(case, f, state).replace("-", "")
+    try:
+        d = seq.degap()
+        after = {f.name: str(f.get_slice()) for f in d.get_features(allow_partial=True)}
+    except Exception as e:  # noqa: BLE001
+        after = f"raised {type(e).__name__}: {e}"
+    if out is not None:
+        out["evaluations"] += 1
+        bump(out, "degap_on", flav)
+        if before:
+            out["nontrivial"].add(("degap", case["text"], json.dumps(case["ops"])))
+    # a feature whose retained residues are all gaps may disappear; everything else must denote the same residues
+    want = {k: v for k, v in before.items() if v}
+    got = after if isinstance(after, str) else {k: v for k, v in after.items() if v}
+    if got != want:
+        fails.append(("after degap() the features denote different residues", inp, want, got, f"degap:{flav}"))
+    return fails
+
+
+# --------------------------------------------------------------------------
 # spec check
 # --------------------------------------------------------------------------
 def spec_check(ctx, budget):
@@ -695,6 +867,18 @@ def spec_check(ctx, budget):
         for op in case["ops"]:
             bump(out, "aln_op", op[0])
         for what, inp, want, got, sig in run_aln_hist_case(case, out):
+            add_failure(out, "spec", what, inp, want, got, sig=sig)
+    # features ADDED on views / alignment rows, and degap()
+    rng2 = ctx.subrng(f"added{budget}")
+    for i in range(60 * budget):
+        for what, inp, want, got, sig in run_added_case(gen_added_case(rng2), out):
+            add_failure(out, "spec", what, inp, want, got, sig=sig)
+    for i in range(30 * budget):
+        case = dict(gen_aln_hist_case(rng2), seed=rng2.randint(0, 10**6))
+        for what, inp, want, got, sig in run_aln_added_case(case, out):
+            add_failure(out, "spec", what, inp, want, got, sig=sig)
+    for i in range(40 * budget):
+        for what, inp, want, got, sig in run_degap_case(gen_degap_case(rng2), out):
             add_failure(out, "spec", what, inp, want, got, sig=sig)
     return out
 
@@ -1076,7 +1260,19 @@ def _first(fails):
     return o["failures"][0]
 
 
+def _other_case(w):
+    if "added_case" in w:
+        return run_added_case(w["added_case"])
+    if "aln_added_case" in w:
+        return run_aln_added_case(w["aln_added_case"])
+    if "degap_case" in w:
+        return run_degap_case(w["degap_case"])
+    return None
+
+
 def check_witness(ctx, w):
+    if _other_case(w) is not None:
+        return _first(_other_case(w))
     if "aln_hist_case" in w:
         return _first(run_aln_hist_case(w["aln_hist_case"]))
     if "aln_case" in w:
@@ -1087,7 +1283,9 @@ def check_witness(ctx, w):
 def replay(ctx, data):
     f = data.get("failing_input") or {}
     inp = f.get("input") or {}
-    if "aln_hist_case" in inp:
+    if _other_case(inp) is not None:
+        fails = _other_case(inp)
+    elif "aln_hist_case" in inp:
         fails = run_aln_hist_case(inp["aln_hist_case"])
     elif "aln_case" in inp:
         fails = run_aln_case(inp["aln_case"])
